@@ -164,7 +164,7 @@ class Lazy:
             if t.fn.name == "__init__":
                 continue
             targs = self._tainted_args(t, call, ff, ctx, tparams)
-            res = res or self.analyze(ctx.sub(t), targs, True, (), summary_only=True)
+            res = res or self.analyze(ctx.sub(t, call), targs, True, (), summary_only=True)
         return res
 
     def _tainted_args(self, t: Target, call: ast.Call, ff, ctx, tparams) -> frozenset:
@@ -221,7 +221,7 @@ class Lazy:
                     if t.fn is None or t.fn.name == "__init__":
                         continue
                     targs = self._tainted_args(t, call, ff, ctx, tparams)
-                    self.analyze(ctx.sub(t), targs, prot2 or summary_only and protected, path + ((fn, call),), summary_only and protected)
+                    self.analyze(ctx.sub(t, call), targs, prot2 or summary_only and protected, path + ((fn, call),), summary_only and protected)
                 # kernels handed to apply_ufunc
                 fname = dotted(call.func) or ""
                 if fname.endswith("apply_ufunc"):
@@ -312,7 +312,8 @@ class Lazy:
                         if is_np_buffer:
                             self.n_sinks_examined += 1
                             if self.tainted(n.value, ff, ctx, tparams) and unprotected(n):
-                                self._report(ctx, n, "buffer assignment", "assigning a lazy value into a numpy buffer materialises it", path)
+                                # reported at the target (the sink is the buffer, whatever expression is stored)
+                                self._report(ctx, t, "buffer assignment", "assigning a lazy value into a numpy buffer materialises it", path)
 
 
 def check(chk):
@@ -354,9 +355,134 @@ def check(chk):
     chk.info["tainted_attributes"] = sorted(f"{c.split('.')[-1]}.{a}" for c, a in lz.tainted_attrs)[:80]
     _inputs(chk)
     _inner_flags(chk, classes)
+    _dask_symmetry(chk, lz.visited_fns)
+    chk.floor("EQUIV.branch", 4)
     chk.floor("LAZY.inner", 15)
     chk.floor("LAZY.sink", 120)
     chk.floor("LAZY.input", 8)
+
+
+DASK_TESTS = ("DaskArray", "data_is_dask", "is_dask_collection", "dask_array_type")
+HARMLESS_ONE_SIDED = {"warn", "warnings.warn", "compute", "persist", "dask.compute", "dask.persist", "print", "_compute_svd_result", "wait_on"}
+
+
+def _is_dask_test(ff: FuncFacts, test: ast.expr) -> bool:
+    from .common import inline_locals
+    try:
+        t = norm(inline_locals(ff, test))
+    except Exception:
+        t = norm(test)
+    return any(k in t for k in DASK_TESTS)
+
+
+def _branches(node: ast.If) -> tuple[list[tuple[ast.expr | None, list[ast.stmt]]], bool]:
+    """the branches of an if / elif / else chain: [(test, body)...] and whether a final else exists"""
+    out = []
+    cur = node
+    while True:
+        out.append((cur.test, cur.body))
+        if len(cur.orelse) == 1 and isinstance(cur.orelse[0], ast.If):
+            cur = cur.orelse[0]
+            continue
+        if cur.orelse:
+            out.append((None, cur.orelse))
+            return out, True
+        return out, False
+
+
+def _dask_symmetry(chk, fit_path_fns):
+    """EQUIV.branch - the dask-backed fit equals the in-memory fit only if nothing that shapes the result happens for
+    one kind of backing array alone.  In every function on a fit path (and in the two SVD wrappers), for every
+    if / elif / else chain one of whose conditions tests whether the data is dask-backed: a variable (or attribute)
+    that a branch assigns and that is used after the chain must be assigned by every branch that falls through (an
+    absent else is an empty branch); a branch may always refuse (raise) and may compute / persist / warn."""
+    from ..cfg import always_exits
+    pm = chk.pm
+    names = set(fit_path_fns) | {"xeofs.linalg.decomposer.Decomposer.fit", "xeofs.linalg._numpy._svd._SVD.fit_transform"}
+    n_chains = 0
+    for q in sorted(names):
+        fn = pm.functions.get(q)
+        if fn is None:
+            continue
+        ff = FuncFacts.of(fn)
+        inner_ifs = set()
+        for node in [n for n in walk_no_nested(fn.node) if isinstance(n, ast.If)]:
+            if id(node) in inner_ifs:
+                continue
+            br, has_else = _branches(node)
+            cur = node
+            while len(cur.orelse) == 1 and isinstance(cur.orelse[0], ast.If):
+                cur = cur.orelse[0]
+                inner_ifs.add(id(cur))
+            if not any(t is not None and _is_dask_test(ff, t) for t, _ in br):
+                continue
+            n_chains += 1
+            if not has_else:
+                br = br + [(None, [])]
+            inside = {id(x) for x in ast.walk(node)}
+            # definitions made in the chain that are used after it
+            per_branch: list[set[str]] = []
+            for t, body in br:
+                defs: set[str] = set()
+                for st in body:
+                    for n in walk_no_nested(st) if not isinstance(st, (ast.FunctionDef, ast.ClassDef)) else []:
+                        tg = []
+                        if isinstance(n, ast.Assign):
+                            tg = n.targets
+                        elif isinstance(n, (ast.AugAssign, ast.AnnAssign)) and getattr(n, "value", None) is not None:
+                            tg = [n.target]
+                        for x in tg:
+                            for e in flatten_targets(x):
+                                if isinstance(e, ast.Name):
+                                    defs.add(e.id)
+                                elif is_self_attr(e):
+                                    defs.add("self." + e.attr)
+                                elif isinstance(e, ast.Subscript) and (isinstance(e.value, ast.Name) or is_self_attr(e.value)):
+                                    defs.add(norm(e.value))
+                per_branch.append(defs)
+            live: set[str] = set()
+            for n in walk_no_nested(fn.node):
+                if id(n) in inside:
+                    continue
+                if isinstance(n, ast.Name) and isinstance(n.ctx, ast.Load):
+                    # is one of the chain's definitions a reaching definition of this use?
+                    for d in ff.rd.reaching(n.id, ff.node_of(n)):
+                        if d.stmt is not None and id(d.stmt) in inside:
+                            live.add(n.id)
+                elif is_self_attr(n) and isinstance(n.ctx, ast.Load):
+                    for d in ff.rd.reaching("self." + n.attr, ff.node_of(n)):
+                        if d.stmt is not None and id(d.stmt) in inside:
+                            live.add("self." + n.attr)
+            # attributes assigned in the chain are live after the function too
+            for defs in per_branch:
+                live |= {d for d in defs if d.startswith("self.")}
+            bad = None
+            for (t, body), defs in zip(br, per_branch):
+                if body and always_exits(body) and any(isinstance(x, ast.Raise) for x in ast.walk(ast.Module(body=body, type_ignores=[]))):
+                    continue  # refusal
+                if body and always_exits(body) and isinstance(body[-1], ast.Return):
+                    continue  # every branch returns its own result: compared by the value rules, not here
+                missing = sorted(v for v in live if v not in defs and any(v in d2 for d2 in per_branch))
+                if missing:
+                    bad = (t, missing)
+                    break
+                # one-sided effects without assignment
+            # expression statements (calls) that only one kind of data sees
+            if bad is None:
+                for (t, body), defs in zip(br, per_branch):
+                    for st in body:
+                        if isinstance(st, ast.Expr) and isinstance(st.value, ast.Call):
+                            nm = (dotted(st.value.func) or norm(st.value.func))
+                            last = nm.split(".")[-1]
+                            if last in HARMLESS_ONE_SIDED or nm in HARMLESS_ONE_SIDED or last in ("setdefault", "update", "append"):
+                                continue
+                            others = [b2 for (t2, b2) in br if b2 is not body]
+                            if not any(any(isinstance(s2, ast.Expr) and isinstance(s2.value, ast.Call) and (dotted(s2.value.func) or "").split(".")[-1] == last for s2 in b2) for b2 in others):
+                                bad = (t, [f"call {nm}(...)"])
+            chk.check(bad is None, "EQUIV.branch", fn, node, construct=f"chain on {norm(node.test)[:60]}: every branch defines what is used afterwards",
+                      why=(f"{bad[1]} {'is' if len(bad[1]) == 1 else 'are'} set in one branch of a chain that depends on whether the data is dask-backed but not in the branch "
+                           f"`{norm(bad[0])[:60] if bad[0] is not None else 'else'}`: the dask-backed fit and the in-memory fit apply different post-processing") if bad else "")
+    chk.info["dask_dependent_chains"] = n_chains
 
 
 FLAG_PARAMS = {"compute": True, "check_nans": True, "compute_eagerly": False}  # name -> must be wired when the callee's default is True
